@@ -492,7 +492,7 @@ fn long_label(prefix: &str, len: usize) -> String {
     s
 }
 
-pub const N_INST_LABELS: usize = 12;
+pub const N_INST_LABELS: usize = 13;
 pub fn inst_label(i: usize) -> String {
     match i % N_INST_LABELS {
         0 => "dup".into(),
@@ -508,11 +508,13 @@ pub fn inst_label(i: usize) -> String {
         // ' (2)' makes 64 bytes
         9 => long_label("l60", 60),
         10 => long_label("l63", 63),
-        _ => "dup (4294967295)".into(),
+        11 => "dup (4294967295)".into(),
+        // 63 bytes already; the next number has one digit more
+        _ => format!("{} (9)", long_label("l59n", 59)),
     }
 }
 
-pub const N_HOST_LABELS: usize = 9;
+pub const N_HOST_LABELS: usize = 10;
 pub fn host_label(i: usize) -> String {
     match i % N_HOST_LABELS {
         0 => "duphost".into(),
@@ -525,7 +527,9 @@ pub fn host_label(i: usize) -> String {
         // '-2' makes 64 bytes
         6 => long_label("h62", 62),
         7 => long_label("h63", 63),
-        _ => "duphost-4294967295".into(),
+        8 => "duphost-4294967295".into(),
+        // 63 bytes already; the next number has one digit more
+        _ => format!("{}-9", long_label("h61n", 61)),
     }
 }
 const DUEL_TY: &str = "_http._tcp.local.";
@@ -546,6 +550,10 @@ pub struct DuelCase {
     /// which daemon gets which port / address (decides who wins)
     pub order: u8,
     pub unregister: bool,
+    /// two of the registrations carry the same port and TXT (they differ in their addresses only):
+    /// 0 none, 1 daemons 0+1, 2 daemons 0+2, 3 daemons 1+2
+    #[serde(default)]
+    pub twin: u8,
 }
 
 /// The documented renaming of an instance label: 'x' -> 'x (2)', 'x (N)' -> 'x (N+1)'.
@@ -599,6 +607,21 @@ fn claims<'a>(m: &'a Message) -> impl Iterator<Item = &'a Record> {
     m.answers.iter().chain(m.additionals.iter())
 }
 
+/// The daemon whose port and TXT daemon `i` uses (itself unless it is the second of the twins).
+fn twin_of(twin: u8, n: usize, i: usize) -> usize {
+    let (a, b) = match twin {
+        1 => (0, 1),
+        2 => (0, 2),
+        3 => (1, 2),
+        _ => return i,
+    };
+    if b < n && i == b {
+        a
+    } else {
+        i
+    }
+}
+
 pub fn check_duel(case: &DuelCase, ctx: &mut CaseCtx) {
     let n = case.n.clamp(2, 3);
     let ty = Name::from_escaped(DUEL_TY);
@@ -644,7 +667,7 @@ pub fn check_duel(case: &DuelCase, ctx: &mut CaseCtx) {
             inst_label,
             host0: Name::from_labels(&[host_label.as_bytes(), b"local"]),
             host_label,
-            port: 3000 + perm_port[i] as u16,
+            port: 3000 + perm_port[twin_of(case.twin, n, i)] as u16,
             addrs,
             reg_t: T0 + case.offsets.get(i).copied().unwrap_or(0),
             fullname_arg: String::new(),
@@ -658,7 +681,7 @@ pub fn check_duel(case: &DuelCase, ctx: &mut CaseCtx) {
         w.run_until(plan[i].reg_t);
         let p = &mut plan[i];
         let addr_str = p.addrs.iter().map(|a| a.to_string()).collect::<Vec<_>>().join(",");
-        let id = format!("{i}");
+        let id = format!("{}", twin_of(case.twin, n, i));
         let props = [("id", id.as_str())];
         let info = match ServiceInfo::new(DUEL_TY, &p.inst_label, &format!("{}.local.", p.host_label), addr_str.as_str(), p.port, &props[..]) {
             Ok(x) => x,
@@ -1009,6 +1032,17 @@ fn judge_duel(case: &DuelCase, ctx: &mut CaseCtx, w: &World, plan: &[Planned], a
                         if script.is_some_and(|att| att.iter().any(|a| !a.same_data && a.name.eq_ignore_case(&q.name) && a.t >= *t_sent && a.t <= e.t)) {
                             continue;
                         }
+                        // the same between daemons: a response claiming the name since my last probe
+                        // (a conflict moves my records to the next name), or the name given up by now
+                        if d.log.iter().any(|e2| {
+                            e2.t >= *t_sent && e2.t <= e.t && matches!(&e2.ev, Ev::Rx { msg: Some(m2), .. } if m2.is_response() && claims(m2).any(|r| r.name.eq_ignore_case(&q.name)))
+                        }) {
+                            continue;
+                        }
+                        let host_kind = mine.iter().any(|r| matches!(r.rdata, RData::A(_) | RData::Aaaa(_)));
+                        if !mine.is_empty() && !current(&q.name, host_kind, e.t) {
+                            continue;
+                        }
                         // a probe arriving in the very millisecond in which my own probing
                         // starts is not compared yet (the next one, 250 ms later, is)
                         if round_start.get(&key).is_some_and(|t0| e.t <= *t0) {
@@ -1016,30 +1050,68 @@ fn judge_duel(case: &DuelCase, ctx: &mut CaseCtx, w: &World, plan: &[Planned], a
                         }
                         // exact-case owner names only (the crate matches names case-sensitively here)
                         let theirs: Vec<&Record> = m.authorities.iter().filter(|r| r.name == q.name).collect();
-                        if theirs.is_empty() || mine.iter().any(|r| r.name != q.name) {
+                        // a response about the host my SRV points to, since my last probe, may have
+                        // renamed the host: the probe of this name then starts a new round (its SRV
+                        // changed) and is not compared before that round's first probe
+                        let targets: Vec<Name> = mine.iter().filter_map(|r| wire::srv_of(r).map(|(_, h)| h.clone())).collect();
+                        if !targets.is_empty()
+                            && d.log.iter().any(|e2| {
+                                e2.t >= *t_sent
+                                    && e2.t <= e.t
+                                    && matches!(&e2.ev, Ev::Rx { msg: Some(m2), .. } if m2.is_response() && claims(m2).any(|r| targets.iter().any(|h| h.eq_ignore_case(&r.name))))
+                            })
+                        {
                             continue;
                         }
-                        let plain = mine.iter().chain(theirs.iter().copied()).all(|r| matches!(r.rdata, RData::A(_) | RData::Aaaa(_) | RData::Txt(_)));
-                        if !plain {
+                        // (a question without proposed records - what is left of a probe whose records
+                        // have all moved to a new name - claims nothing and has nothing to compare)
+                        if theirs.is_empty() || mine.is_empty() || mine.iter().any(|r| r.name != q.name) {
                             continue;
                         }
-                        let key_of = |r: &Record| -> (u16, u16, Vec<u8>) {
+                        // RDATA is compared where it is plain bytes (A, AAAA, TXT); a comparison that
+                        // is only decided by an SRV record is left unjudged here
+                        let key_of = |r: &Record| -> (u16, u16, Option<Vec<u8>>) {
                             (
                                 r.class_only(),
                                 r.rtype,
                                 match &r.rdata {
-                                    RData::A(a) => a.octets().to_vec(),
-                                    RData::Aaaa(a) => a.octets().to_vec(),
-                                    RData::Txt(t) => t.clone(),
-                                    _ => vec![],
+                                    RData::A(a) => Some(a.octets().to_vec()),
+                                    RData::Aaaa(a) => Some(a.octets().to_vec()),
+                                    RData::Txt(t) => Some(t.clone()),
+                                    _ => None,
                                 },
                             )
                         };
                         let mut a: Vec<_> = mine.iter().map(key_of).collect();
                         let mut b: Vec<_> = theirs.iter().map(|r| key_of(r)).collect();
+                        if a.iter().chain(b.iter()).filter(|k| k.2.is_none()).count() > 2 {
+                            continue;
+                        }
                         a.sort();
                         b.sort();
-                        if a < b {
+                        let mut mine_earlier = None;
+                        let mut undecided = false;
+                        for (x, y) in a.iter().zip(b.iter()) {
+                            if (x.0, x.1) != (y.0, y.1) {
+                                mine_earlier = Some((x.0, x.1) < (y.0, y.1));
+                                break;
+                            }
+                            match (&x.2, &y.2) {
+                                (Some(p), Some(q)) if p != q => {
+                                    mine_earlier = Some(p < q);
+                                    break;
+                                }
+                                (Some(_), Some(_)) => {}
+                                _ => {
+                                    undecided = true;
+                                    break;
+                                }
+                            }
+                        }
+                        if mine_earlier.is_none() && !undecided && a.len() != b.len() {
+                            mine_earlier = Some(a.len() < b.len());
+                        }
+                        if mine_earlier == Some(true) {
                             waits.push((key.clone(), e.t, e.t + 1000));
                         }
                     }
@@ -1054,9 +1126,14 @@ fn judge_duel(case: &DuelCase, ctx: &mut CaseCtx, w: &World, plan: &[Planned], a
                             if q.qtype == T_ANY {
                                 let auth: Vec<Record> = m.authorities.iter().filter(|r| r.name.eq_ignore_case(&q.name)).cloned().collect();
                                 let key = q.name.lower();
-                                if let Some((nm, t_lost, _)) = waits.iter().find(|(nm, _, until)| nm == &key && e.t < *until) {
+                                // (a question without proposed records is not a probe)
+                                if let Some((nm, t_lost, _)) = waits.iter().find(|(nm, _, until)| !auth.is_empty() && nm == &key && e.t < *until) {
+                                    // (an instance label with dots or backslashes is not recognised in
+                                    // what peers send: the recorded finding)
+                                    let first = first_label(&q.name);
+                                    let escaped_label = q.name.0.len() > 2 && (first.contains('.') || first.contains('\\'));
                                     ctx.violation(
-                                        "C08/lost-comparison-no-wait",
+                                        if escaped_label { "C08/escaped-instance-label/conflict-not-detected" } else { "C08/lost-comparison-no-wait" },
                                         format!(
                                             "D{i} lost the simultaneous-probe comparison for {} at +{} ms (its data sorts earlier) but probes again at +{} ms, before one second has passed\n{}",
                                             nm.to_escaped(),
@@ -1067,7 +1144,9 @@ fn judge_duel(case: &DuelCase, ctx: &mut CaseCtx, w: &World, plan: &[Planned], a
                                     );
                                     return;
                                 }
-                                if last_probe.get(&key).map_or(true, |(t_prev, _)| e.t > t_prev + 300) {
+                                // a new round: the first probe, one after a pause, or one with other data
+                                // (the SRV target after a host rename)
+                                if last_probe.get(&key).map_or(true, |(t_prev, prev)| e.t > t_prev + 300 || format!("{prev:?}") != format!("{auth:?}")) {
                                     round_start.insert(key.clone(), e.t);
                                 }
                                 last_probe.insert(key, (e.t, auth));
@@ -1360,6 +1439,8 @@ pub enum InjKind {
     ProbeWin,
     /// a peer's probe whose data is earlier (ignored)
     ProbeLose,
+    /// a peer's probe for the instance name whose data is later (the daemon must yield and wait)
+    ProbeWinInst,
 }
 
 #[derive(Clone, Debug, Serialize, Deserialize)]
@@ -1493,8 +1574,15 @@ pub fn check_inject(case: &InjCase, ctx: &mut CaseCtx) {
             }
             InjKind::ProbeWin => peer::query(0, vec![peer::q(&hname, T_ANY)], vec![], vec![peer::addr_rec(&hname, IpAddr::V4(Ipv4Addr::new(192, 168, 10, 250)), 120, false)]),
             InjKind::ProbeLose => peer::query(0, vec![peer::q(&hname, T_ANY)], vec![], vec![peer::addr_rec(&hname, IpAddr::V4(Ipv4Addr::new(192, 168, 10, 3)), 120, false)]),
+            InjKind::ProbeWinInst => {
+                let mut srv = srv;
+                let mut txt = txt;
+                srv.class = 1;
+                txt.class = 1;
+                peer::query(0, vec![peer::q(&iname, T_ANY)], vec![], vec![txt, srv])
+            }
         };
-        if matches!(inj.kind, InjKind::ProbeWin | InjKind::ProbeLose) {
+        if matches!(inj.kind, InjKind::ProbeWin | InjKind::ProbeLose | InjKind::ProbeWinInst) {
             n_probe += 1;
         } else {
             n_resp += 1;
@@ -1538,6 +1626,7 @@ pub fn check_inject(case: &InjCase, ctx: &mut CaseCtx) {
         latency: 0,
         order: 0,
         unregister: case.unregister,
+        twin: 0,
     };
     let before = ctx.violations.len();
     judge_duel(&dc, ctx, &w, &plan, &asked, 1, t_settled, t_last, t_unreg, Some(&attacks));
@@ -1583,6 +1672,7 @@ pub fn inject_strategy() -> BoxedStrategy<InjCase> {
             1 => Just(InjKind::RespSameA),
             2 => Just(InjKind::ProbeWin),
             1 => Just(InjKind::ProbeLose),
+            2 => Just(InjKind::ProbeWinInst),
         ],
         prop_oneof![3 => Just(0u8), 2 => Just(1u8), 1 => Just(2u8)],
     )
@@ -1625,9 +1715,9 @@ pub fn duel_strategy() -> BoxedStrategy<DuelCase> {
         prop::bool::weighted(0.3),
         prop_oneof![4 => Just(0u64), 2 => 1u64..=3, 1 => 3u64..=30],
         0u8..36,
-        prop::bool::weighted(0.5),
+        (prop::bool::weighted(0.5), Just(0u8)),
     )
-        .prop_map(|(n, offsets, jitters, inst, host, same, v6, latency, order, unregister)| DuelCase {
+        .prop_map(|(n, offsets, jitters, inst, host, same, v6, latency, order, (unregister, twin))| DuelCase {
             n,
             offsets,
             jitters,
@@ -1639,6 +1729,7 @@ pub fn duel_strategy() -> BoxedStrategy<DuelCase> {
             latency,
             order,
             unregister,
+            twin,
         })
         .boxed()
 }
@@ -1661,6 +1752,7 @@ fn duel_enumerated(i: u64) -> DuelCase {
         latency: 0,
         order: if rest % 2 == 0 { 0 } else { 7 },
         unregister: false,
+        twin: 0,
     }
 }
 const DUEL_GRID: u64 = 201 * 3 * 3 * 2;
